@@ -268,7 +268,10 @@ def alto_trace(case):
     for blk in case["blocks"]:
         for ln in blk["lines"]:
             tag += 1
+            txt = ln["concrete"]
             lb = 990000 if ln["sit"] in ("peaky", "window") else (600000 if ln["sit"] == "mid" else -1)
+            if ln["sit"] in ("tight", "tightwin") and all(a != b for a, b in zip(txt, txt[1:])):
+                lb = 990000        # one peaky frame per character, no repeated neighbour: alignable, every posterior > 0.99
             rec["sure"].append(lb if all(c in CHARSET for c in ln["concrete"]) else -1)
             if (tag + len(ln["concrete"])) % 2 == 0:
                 lines[tag - 1].transcription_confidence = 0.0123457
